@@ -29,7 +29,8 @@ CHECK_DEADLOCK FALSE
 """
 
 INV_C01 = "Conservation Numbering NoEmptyChunk AliasOnlyAfterGrant SendHookOnce AckHookSound CloseTotals NoChunkAfterClose AllReceivedAtClose SnapshotConservation"
-INV_C02 = INV_C01 + " StoredUntilAcked NothingLostWhenQuiescent ResendOnlyStored"
+INV_C20 = INV_C01 + " SizePolicyBound NoneCutsOnlyOnDemand ImmediateCutsEveryWrite"
+INV_C02 = "Conservation Numbering NoEmptyChunk AliasOnlyAfterGrant SendHookOnce AckHookSound CloseTotals SnapshotConservation StoredUntilAcked NothingLostWhenQuiescent ResendOnlyStored"
 
 
 def q(xs):
@@ -58,14 +59,20 @@ def policy_step(policy, thr):
     return {"k": "none"}
 
 
-def to_scenario(sid, script, policy="none", thr=2, qos="reliable", conn=None, alias_base=40, storage=None):
+def to_scenario(sid, script, policy="none", thr=2, qos="reliable", conn=None, alias_base=40, storage=None, seq=False, auto_ack=False, sample_state=False, params=None):
     """script: list of env ops printed by Upstream.tla; returns a harness scenario."""
     steps = [{"a": "connect", "must": True},
              {"a": "openUp", "obj": "U1", "qos": qos, "policy": policy_step(policy, thr), "must": True, "closeTimeoutMs": 3000}]
+    if auto_ack:
+        steps.append({"a": "ackMode", "mode": "auto"})
     aliases = {}
     closing = False
     for op in script:
         a = op["a"]
+        if auto_ack and a == "ack":
+            continue
+        if sample_state:
+            steps.append({"a": "state", "obj": "U1"})
         if a == "write":
             pts = [[op["tok"], op["sz"] * UNIT]] if op.get("n", 1) > 0 else []
             steps.append({"a": "write", "g": op["g"], "obj": "U1", "id": op["id"], "pts": pts, "ctxMs": 4000})
@@ -97,7 +104,14 @@ def to_scenario(sid, script, policy="none", thr=2, qos="reliable", conn=None, al
         steps.append({"a": "ackUntilIdle", "obj": "U1", "src": "C", "ms": 4000})
         steps.append({"a": "join", "obj": "C"})
     steps += [{"a": "quiesce"}, {"a": "state", "obj": "U1"}, {"a": "closeConn", "g": "main2", "wait": True, "ctxMs": 2000}, {"a": "quiesce", "ms": 50}]
+    if seq:
+        for st in steps:
+            if st.get("g") and st["a"] in ("write", "flush", "closeUp"):
+                st["g"] = "S"
+                st["wait"] = True
     sc = {"id": sid, "kind": "iscp", "conn": conn or {}, "steps": steps}
+    if params:
+        sc["p"] = params
     if storage:
         sc["conn"]["storage"] = storage
     return sc
